@@ -22,11 +22,11 @@ func constantString(c *ssa.Const) string {
 func (fr *Frame) pos(p token.Pos) token.Position { return fr.vc.P.Fset.Position(p) }
 
 // oblige registers a proof obligation at the current program point.
-func (fr *Frame) oblige(kind, label, goal string, props []string, pos token.Pos, src string) {
+func (fr *Frame) oblige(kind, label, goal string, props []string, pos token.Pos, src string) *Obligation {
 	vc := fr.vc
 	if goal == "true" {
 		// still count trivially true obligations? They carry no information; skip.
-		return
+		return nil
 	}
 	top := fr.top
 	name := funcKey(top.fn) + "/" + kind
@@ -43,8 +43,10 @@ func (fr *Frame) oblige(kind, label, goal string, props []string, pos token.Pos,
 	if len(props) == 0 && top.contract != nil {
 		props = top.contract.Props
 	}
-	vc.obls = append(vc.obls, &Obligation{Name: name, Props: props, Kind: kind, Fn: funcKey(top.fn), Prefix: len(vc.lines),
-		Reach: fr.curR, Goal: goal, Src: src, Pos: fr.pos(pos), vc: vc, fr: fr.top})
+	o := &Obligation{Name: name, Props: props, Kind: kind, Fn: funcKey(top.fn), Prefix: len(vc.lines),
+		Reach: fr.curR, Goal: goal, Src: src, Pos: fr.pos(pos), vc: vc, fr: fr.top}
+	vc.obls = append(vc.obls, o)
+	return o
 }
 
 func (fr *Frame) wantSafety(k string) bool {
@@ -79,34 +81,27 @@ func (fr *Frame) typed(v Val) Val {
 
 // embRef: reference of a by-value struct field inside struct S at ref x.
 func (vc *VC) embRef(S types.Type, field string, x string) string {
-	f := vc.declFun("emb_"+vc.typeName(S)+"."+field, []string{"Int"}, "Int")
+	name := "emb_" + vc.typeName(S) + "." + field
+	first := !vc.declared[q(name)]
+	f := vc.declFun(name, []string{"Int"}, "Int")
 	inv := vc.declFun("embinv_"+vc.typeName(S)+"."+field, []string{"Int"}, "Int")
-	t := "(" + f + " " + x + ")"
-	key := "embfact:" + t
-	if !vc.specDone[key] {
-		vc.specDone[key] = true
-		vc.assert("(= (" + inv + " " + t + ") " + x + ")")
-		vc.assert("(= (birth " + t + ") (birth " + x + "))")
-		vc.assert("(=> (> " + x + " 0) (> " + t + " 0))")
-		vc.assert("(=> (= " + x + " 0) (= " + t + " 0))")
+	if first {
+		// injective, preserves birth time and nil-ness (quantified once, triggered by the term itself)
+		vc.emit("(assert (forall ((x Int)) (! (and (= (" + inv + " (" + f + " x)) x) (= (birth (" + f + " x)) (birth x)) (=> (> x 0) (> (" + f + " x) 0)) (=> (= x 0) (= (" + f + " x) 0))) :pattern ((" + f + " x)))))")
 	}
-	return t
+	return "(" + f + " " + x + ")"
 }
 
 func (vc *VC) elemRef(T types.Type, base, idx string) string {
-	f := vc.declFun("elemref_"+vc.typeName(T), []string{"Int", "Int"}, "Int")
+	name := "elemref_" + vc.typeName(T)
+	first := !vc.declared[q(name)]
+	f := vc.declFun(name, []string{"Int", "Int"}, "Int")
 	i1 := vc.declFun("elemref1_"+vc.typeName(T), []string{"Int"}, "Int")
 	i2 := vc.declFun("elemref2_"+vc.typeName(T), []string{"Int"}, "Int")
-	t := "(" + f + " " + base + " " + idx + ")"
-	key := "elemfact:" + t
-	if !vc.specDone[key] {
-		vc.specDone[key] = true
-		vc.assert("(= (" + i1 + " " + t + ") " + base + ")")
-		vc.assert("(= (" + i2 + " " + t + ") " + idx + ")")
-		vc.assert("(= (birth " + t + ") (birth " + base + "))")
-		vc.assert("(> " + t + " 0)")
+	if first {
+		vc.emit("(assert (forall ((b Int) (i Int)) (! (and (= (" + i1 + " (" + f + " b i)) b) (= (" + i2 + " (" + f + " b i)) i) (= (birth (" + f + " b i)) (birth b)) (> (" + f + " b i) 0)) :pattern ((" + f + " b i)))))")
 	}
-	return t
+	return "(" + f + " " + base + " " + idx + ")"
 }
 
 // structFieldFam: heap family prefix of a scalar field.
